@@ -14,7 +14,8 @@ CHECKS = {
         text="All 481 templates x value rows covering every alphabet element of every variable x block-count variants x header variants are "
              "encoded by the real serializer, compared byte-for-byte with an independent struct-based reference encoder (own template parser), "
              "decoded eagerly and lazily and compared value-by-value (floats bit-exact); default-fill is enumerated per template and variable, and with exactly "
-             "one block (first / middle / last) of every repeated block list marked. Codec histories: a conformant message (plain and zero-coded) after each of "
+             "one block (first / middle / last) of every repeated block list marked. A second codec built from a different template file through the message_template= constructors must leave the default codec objects intact. "
+             "Codec histories: a conformant message (plain and zero-coded) after each of "
              "up to 7 kinds of rejected serialize / deserialize call, and after all of them in a row, on the same long-lived serializer and deserializers. "
              "Exhaustive over the stated finite product, which is what a sequential codec with no cross-variable state needs.",
         note="Values are drawn from boundary alphabets per wire type (8/16-bit boundaries, single large values for 32/64-bit), not full domains; "
@@ -25,7 +26,8 @@ CHECKS = {
         text="Every generator datagram of all 481 templates (laid out by the independent reference encoder), every truncation / single-byte substitution / "
              "extension of 14 basis datagrams and non-canonical zero-codings are pushed through every sequence of {header read, body touch, to_dict, "
              "serialize} up to length 3 in deferred and eager mode (generator datagrams also after the same codec objects rejected unrelated half-built messages and "
-             "undecodable datagrams: XS, XBS, BXS, XBSS); the output must be byte-identical (never parsed, failed parse, parsed with canonical "
+             "undecodable datagrams: XS, XBS, BXS, XBSS; and after an addon take()s the message before / after the body was touched, original and copy inspected in "
+             "either order and both serialized); the output must be byte-identical (never parsed, failed parse, parsed with canonical "
              "zero-coding) and must always decode to the same message. Exhaustive over the stated product.",
         note="Datagrams rejected by the header parser are out of scope; byte identity after a successful parse is not demanded when a float decodes to NaN "
              "or the zero-coding is non-canonical; mutation alphabet {00,01,7F,80,FF} per offset."),
@@ -80,8 +82,9 @@ CHECKS = {
         technique="bounded-exhaustive input enumeration over small byte alphabets plus parametric boundary families, differential against a reference zero-code model",
         text="All strings over {00,01,FF} up to length 12 (quick 10) through compress->expand, every zero-run length 0..1100 in 9 left/right contexts incl. "
              "wrap-form tokens, all decoder inputs over {00,01,02,FF} up to length 8 (quick 7), every reference length around the 0x3000 cap with 13 tail-token "
-             "shapes, adversarial expansion families with allocation tracing, and every ordered pair of strings up to length 4 (thorough 5) with the first "
-             "call's un-copied result held across the second call and fed back in, each checked against an independent plain-Python statement of the format "
+             "shapes, adversarial expansion families with allocation tracing, every ordered pair of strings up to length 4 (thorough 5) with the first "
+             "call's un-copied result held across the second call and fed back in, and the pair as wired into the codec (every value row of 14 basis / all 481 "
+             "templates flagged zerocoded through the real serialize(), plus messages parsed with trailing bytes and serialized again), each checked against an independent plain-Python statement of the format "
              "(round trip, canonical output, decoder == reference, cap refusal, bounded allocation).",
         note="hmc.refwire zero-code reference trusted (self-checked against six format vectors); between cap and cap+512 the decoder may refuse or return the exact "
              "expansion (it checks per input byte); 'without bound' = tracemalloc peak below 8*cap; header peek covered in C01/C02; no sampled general strings."),
